@@ -91,6 +91,18 @@ def pg1(chk, repo):
                     chk.ok("PG1", key, c.where, "beta exponents %s" % (tuple(got),), algebraic=True)
                 else:
                     chk.violation("PG1", key, c.where, "beta exponents per axis are %s; the Prandtl-Glauert transformation of the property needs %s" % (tuple(got), tuple(want)), algebraic=True)
+        # the transformation is one smooth formula: no branch on the Mach number (or any other input)
+        for mn in ("compute", "compute_partials"):
+            for r in m.runs.get(mn, []):
+                if r.final is None:
+                    continue
+                tests = [e for e in r.events if e.kind == "test" and any(str(d_).startswith("in:") for d_ in (e.d.get("dep") or ()))]
+                key = "%s.%s: no input-valued branch %s" % (cname, mn, sig_txt(r.sigma))
+                if tests:
+                    e = tests[0]
+                    chk.violation("PG1", key, "%s:%d" % (e.func.mod.rel, e.lineno), "the scale factors are selected by a test on an input (%s in %s): the transformation is not beta = sqrt(1 - M^2) for every Mach number, and the result is discontinuous where the test flips" % (" ".join((e.d.get("pred") or "").split())[:80], e.func.qual), algebraic=True)
+                else:
+                    chk.ok("PG1", key, c.where, "straight-line in the inputs", algebraic=True)
         # partial factors agree with compute
         for rl in m.runs.get("compute_partials", []):
             if rl.final is None:
